@@ -1,5 +1,5 @@
 (* C15: invariance theorems on the bottom-up semantics and on the model. *)
-From RV Require Export Sparql.Tie Sparql.Variants.
+From RV Require Export Sparql.Tie Sparql.Variants Sparql.PreparedProofs.
 Local Open Scope N_scope.
 
 (* permuting the triple patterns of a BGP: same multiset, in the specification ... *)
@@ -195,24 +195,29 @@ Proof.
 Qed.
 
 (* reading of the checker *)
-Lemma group_ok_iff l : group_ok l = true <-> (forall x r, l = x :: r -> forall y, In y r -> obs_eqb x y = true).
+Lemma group_ok_iff l :
+  group_ok l = true <-> (forall x r, present l = x :: r -> forall y, In y r -> obs_eqb x y = true).
 Proof.
-  destruct l as [|x r]; cbn.
+  unfold group_ok. destruct (present l) as [|x r]; cbn.
   - split; [intros _ ? ? [=]|reflexivity].
   - rewrite forallb_forall. split.
     + intros H ? ? [= <- <-]. exact H.
     + intros H y I. now apply (H x r eq_refl).
 Qed.
 
-Lemma spec_ok15_iff c o :
-  spec_ok15 c o = true <-> (length o = length c /\ forall l, In l o -> group_ok l = true).
+Lemma spec_ok15_iff c : forall o,
+  spec_ok15 c o = true <->
+  Forall2 (fun g l => N.of_nat (length l) = group_size g /\ group_ok l = true) c o.
 Proof.
-  unfold spec_ok15. rewrite andb_true_iff, N.eqb_eq, forallb_forall. split; intros [A B]; split; auto.
-  all: try (now apply Nnat.Nat2N.inj); try (now rewrite A).
+  induction c as [|g c IH]; intros [|l o]; cbn [spec_ok15].
+  - split; [constructor|reflexivity].
+  - split; [discriminate|inversion 1].
+  - split; [discriminate|inversion 1].
+  - rewrite !andb_true_iff, N.eqb_eq, IH. split.
+    + intros [[A B] C]. constructor; auto.
+    + inversion 1; subst. tauto.
 Qed.
 
-(* a case all of whose variants have the base's algebra is accepted by the checker on the model: the
-   model is a function *)
 Lemma obs_eqb_refl o : obs_eqb o o = true.
 Proof.
   destruct o; cbn.
@@ -222,16 +227,288 @@ Proof.
   - reflexivity.
 Qed.
 
+(* ---- the tie for groups of variants ---- *)
+
+(* [aeqb p p']: p' is p with the triple patterns of its BGPs permuted and the
+   operands of some UNIONs and of some joins swapped (annotations of rdflib -
+   lazy, _vars - are free to differ); expressions are the same *)
+Fixpoint remove_tp (x : tpat) (l : list tpat) : option (list tpat) :=
+  match l with
+  | [] => None
+  | y :: r => if tpat_eqb x y then Some r
+              else match remove_tp x r with Some r' => Some (y :: r') | None => None end
+  end.
+Fixpoint perm_eqb (a b : list tpat) : bool :=
+  match a with
+  | [] => match b with [] => true | _ => false end
+  | x :: r => match remove_tp x b with Some b' => perm_eqb r b' | None => false end
+  end.
+
+Fixpoint aeqb (p p' : alg) {struct p} : bool :=
+  match p, p' with
+  | BGP ts, BGP ts' => perm_eqb ts ts'
+  | Join _ a b, Join _ a' b' =>
+      (aeqb a a' && aeqb b b') || (shape a && shape b && aeqb a b' && aeqb b a')
+      || match a, a' with
+         | Join _ x y, Join _ x' y' =>
+             (* (x . y) . b  against  (x' . b') . y' with y ~ b', b ~ y': the last two of a chain swapped *)
+             shape x && shape y && shape b && aeqb x x' && aeqb y b' && aeqb b y'
+         | _, _ => false
+         end
+  | Union a b, Union a' b' => (aeqb a a' && aeqb b b') || (aeqb a b' && aeqb b a')
+  | LeftJoin _ a b e, LeftJoin _ a' b' e' => aeqb a a' && aeqb b b' && expr_eqb e e'
+  | Filter _ _ e q, Filter _ _ e' q' => expr_eqb e e' && aeqb q q'
+  | Minus a b, Minus a' b' => aeqb a a' && aeqb b b'
+  | Extend _ q v e, Extend _ q' v' e' => aeqb q q' && N.eqb v v' && expr_eqb e e'
+  | Values r, Values r' => leqb sol_eqb r r'
+  | Project q vs, Project q' vs' => aeqb q q' && leqb N.eqb vs vs'
+  | Graph t q, Graph t' q' => tv_eqb t t' && aeqb q q'
+  | Distinct q, Distinct q' => aeqb q q'
+  | _, _ => false
+  end.
+
+Lemma remove_tp_perm x l : forall l', remove_tp x l = Some l' -> Permutation l (x :: l').
+Proof.
+  induction l as [|y r IH]; cbn; intros l' H; [discriminate|].
+  destruct (tpat_eqb x y) eqn:E.
+  - apply tpat_eqb_eq in E. injection H as <-. subst. reflexivity.
+  - destruct (remove_tp x r) as [r'|]; [|discriminate]. injection H as <-.
+    rewrite (IH r' eq_refl). apply perm_swap.
+Qed.
+
+Lemma perm_eqb_perm a : forall b, perm_eqb a b = true -> Permutation a b.
+Proof.
+  induction a as [|x r IH]; cbn; intros b H.
+  - destruct b; [constructor|discriminate].
+  - destruct (remove_tp x b) as [b'|] eqn:E; [|discriminate].
+    rewrite (remove_tp_perm _ _ _ E). constructor. now apply IH.
+Qed.
+
+Lemma join_lists_perm A A' B B' :
+  Permutation A A' -> Permutation B B' -> Permutation (join_lists A B) (join_lists A' B').
+Proof.
+  intros PA PB. etransitivity; [apply join_lists_perm_l; exact PA|now apply join_lists_perm_r].
+Qed.
+
+Lemma forallb_perm {A} (f : A -> bool) l l' : Permutation l l' -> forallb f l = forallb f l'.
+Proof.
+  induction 1; cbn; try congruence.
+  destruct (f x), (f y); reflexivity.
+Qed.
+
+Lemma perm_nil_iff {A} (l l' : list A) : Permutation l l' -> (l = [] <-> l' = []).
+Proof.
+  intros P. split; intros ->; [now apply Permutation_nil|apply Permutation_nil; now symmetry].
+Qed.
+
+Lemma sols_eqb_eq r r' : leqb sol_eqb r r' = true -> r = r'.
+Proof. apply leqb_eq. intros x y _. apply sol_eqb_eq. Qed.
+
+Definition aeq_ok (p : alg) : Prop := forall p', aeqb p p' = true ->
+  forall ds gr, Permutation (eval_bu ds gr p) (eval_bu ds gr p').
+(* the induction carries the statement for the operands of an operand that is a join *)
+Definition aeq_ok2 (p : alg) : Prop :=
+  aeq_ok p /\ match p with Join _ x y => aeq_ok x /\ aeq_ok y | _ => True end.
+
+Lemma aeqb_sound_aux p : aeq_ok2 p.
+Proof.
+  induction p as [ts|l a IHa b IHb|pv a IHa b IHb e|n fv e q IHq|a IHa b IHb|a IHa b IHb|xv q IHq v e|rows|q IHq vs|t q IHq|q IHq];
+    (split; [|first [exact I | split; [exact (proj1 IHa)|exact (proj1 IHb)]]]);
+    try destruct IHa as [IHa Xa]; try destruct IHb as [IHb Xb]; try destruct IHq as [IHq Xq];
+    intros p' H;
+    destruct p' as [ts'|l' a' b'|pv' a' b' e'|n' fv' e' q'|a' b'|a' b'|xv' q' v' e'|rows'|q' vs'|t' q'|q'];
+    cbn [aeqb] in H; try discriminate H; intros ds gr; cbn [eval_bu].
+  - (* BGP *) apply (bu_bgp_perm ds gr ts ts'). now apply perm_eqb_perm.
+  - (* Join *)
+    apply orb_true_iff in H as [H|H]; [apply orb_true_iff in H as [H|H]|].
+    3: { destruct a as [|l1 x y| | | | | | | | |]; try discriminate H.
+         destruct a' as [|l1' x' y'| | | | | | | | |]; try discriminate H.
+         destruct Xa as [Jx Jy].
+         apply andb_true_iff in H as [H H6]. apply andb_true_iff in H as [H H5]. apply andb_true_iff in H as [H H4].
+         apply andb_true_iff in H as [H S3]. apply andb_true_iff in H as [S1 S2].
+         cbn [eval_bu].
+         pose proof (bu_wf ds x S1 gr) as WX. pose proof (bu_wf ds y S2 gr) as WY. pose proof (bu_wf ds b S3 gr) as WB.
+         rewrite (join_lists_assoc _ _ _ WX WY WB).
+         etransitivity; [apply join_lists_perm_r; apply (bu_join_comm_lists _ _ WY WB)|].
+         rewrite <- (join_lists_assoc _ _ _ WX WB WY).
+         apply join_lists_perm; [apply join_lists_perm; [apply (Jx _ H4)|apply (IHb _ H6)]|apply (Jy _ H5)]. }
+    + apply andb_true_iff in H as [H1 H2]. apply join_lists_perm; [apply (IHa _ H1)|apply (IHb _ H2)].
+    + apply andb_true_iff in H as [H H4]. apply andb_true_iff in H as [H H3].
+      apply andb_true_iff in H as [S1 S2].
+      etransitivity; [apply bu_join_comm_lists; apply bu_wf; assumption|].
+      apply join_lists_perm; [apply (IHb _ H4)|apply (IHa _ H3)].
+  - (* LeftJoin *)
+    apply andb_true_iff in H as [H He]. apply andb_true_iff in H as [H1 H2].
+    apply (proj2 alg_expr_eqb_eq) in He. subst e'.
+    etransitivity; [apply Permutation_flat_map; apply (IHa _ H1)|].
+    apply flat_map_perm_pointwise. intros x _.
+    pose proof (Permutation_filter' (fun y => compatible x y && ebv (expr_bu ds gr (merge x y) e))
+                  _ _ (IHb _ H2 ds gr)) as P.
+    destruct (filter _ (eval_bu ds gr b)) as [|y r] eqn:E1.
+    + apply Permutation_nil in P. rewrite P. reflexivity.
+    + destruct (filter _ (eval_bu ds gr b')) as [|y' r'] eqn:E2.
+      * symmetry in P. apply Permutation_nil in P. discriminate P.
+      * now apply Permutation_map.
+  - (* Filter *)
+    apply andb_true_iff in H as [He H]. apply (proj2 alg_expr_eqb_eq) in He. subst e'.
+    apply Permutation_filter'. auto.
+  - (* Union *)
+    apply orb_true_iff in H as [H|H]; apply andb_true_iff in H as [H1 H2].
+    + apply Permutation_app; auto.
+    + etransitivity; [apply Permutation_app_comm|]. apply Permutation_app; auto.
+  - (* Minus *)
+    apply andb_true_iff in H as [H1 H2].
+    etransitivity; [apply Permutation_filter'; apply (IHa _ H1)|].
+    erewrite filter_ext; [reflexivity|]. intros x. apply forallb_perm. auto.
+  - (* Extend *)
+    apply andb_true_iff in H as [H He]. apply andb_true_iff in H as [H Hv].
+    apply (proj2 alg_expr_eqb_eq) in He. apply N.eqb_eq in Hv. subst.
+    apply Permutation_map. auto.
+  - (* Values *) apply sols_eqb_eq in H. subst. reflexivity.
+  - (* Project *)
+    apply andb_true_iff in H as [H Hv]. apply lN_eq in Hv. subst. apply Permutation_map. auto.
+  - (* Graph *)
+    apply andb_true_iff in H as [Ht H]. apply tv_eqb_eq in Ht. subst.
+    destruct t' as [t|v].
+    + destruct (existsb _ _); [auto|reflexivity].
+    + apply flat_map_perm_pointwise. intros ng _. apply join_lists_perm_l. auto.
+  - (* Distinct *) apply dedup_perm. apply (IHq _ H).
+Qed.
+
+Theorem aeqb_sound p : forall p', aeqb p p' = true ->
+  forall ds gr, Permutation (eval_bu ds gr p) (eval_bu ds gr p').
+Proof. exact (proj1 (aeqb_sound_aux p)). Qed.
+
+(* the same data and query form *)
+Definition graph_eqb (a b : graph) : bool := leqb triple_eqb a b.
+Definition ds_eqb (a b : dataset) : bool :=
+  graph_eqb (ds_default a) (ds_default b)
+  && leqb (fun x y => N.eqb (fst x) (fst y) && graph_eqb (snd x) (snd y)) (ds_named a) (ds_named b).
+Definition form_eqb (a b : form) : bool :=
+  match a, b with
+  | FSelect, FSelect | FAsk, FAsk => true
+  | FConstruct t, FConstruct t' => leqb tpat_eqb t t'
+  | _, _ => false
+  end.
+
+Lemma graph_eqb_eq a b : graph_eqb a b = true -> a = b.
+Proof. apply leqb_eq. intros x y _. apply triple_eqb_eq. Qed.
+Lemma ds_eqb_eq a b : ds_eqb a b = true -> a = b.
+Proof.
+  destruct a as [d n], b as [d' n']. unfold ds_eqb. cbn. intros H. apply andb_true_iff in H as [H1 H2].
+  apply graph_eqb_eq in H1. subst. f_equal.
+  revert H2. apply leqb_eq. intros [x gx] [y gy] _ E. cbn in E. apply andb_true_iff in E as [E1 E2].
+  apply N.eqb_eq in E1. apply graph_eqb_eq in E2. now subst.
+Qed.
+Lemma form_eqb_eq a b : form_eqb a b = true -> a = b.
+Proof.
+  destruct a, b; cbn; try discriminate; try reflexivity. intros H. f_equal.
+  revert H. apply leqb_eq. intros x y _. apply tpat_eqb_eq.
+Qed.
+
+(* the region of the tie: every variant with an algebra of its own keeps the
+   variable names, the data and the form, is [aeqb] to the base, and base and
+   variant lie in the proved fragment of C04 (well-formed data without boolean
+   literals = outside the region of F-C04-9) *)
+Definition tied_variant (b : case) (cv : case * list (var * var)) : bool :=
+  match snd cv with [] => true | _ => false end
+  && ds_eqb (c_ds b) (c_ds (fst cv)) && form_eqb (c_form b) (c_form (fst cv))
+  && case_wf b && in_frag b && in_frag (fst cv)
+  && aeqb (c_alg b) (c_alg (fst cv)).
+Definition tied_group (g : group) : bool :=
+  match g_kind g with
+  | GNormal => forallb (tied_variant (g_base g)) (g_vars g)
+  | _ => true      (* one modelled observation at most *)
+  end.
+Definition tied15 (c : vcase) : bool := forallb tied_group c.
+
+Lemma obs_eqb_sym a b : obs_eqb a b = true -> obs_eqb b a = true.
+Proof.
+  destruct a, b; cbn; try discriminate; try reflexivity.
+  - rewrite !msol_eqb_perm. now symmetry.
+  - destruct b, b0; auto.
+  - rewrite !graph_seteqb_iff. intros H t. symmetry. apply H.
+Qed.
+Lemma obs_eqb_trans a b c : obs_eqb a b = true -> obs_eqb b c = true -> obs_eqb a c = true.
+Proof.
+  destruct a, b, c; cbn; try discriminate; try reflexivity.
+  - rewrite !msol_eqb_perm. intros; etransitivity; eauto.
+  - destruct b, b0, b1; auto.
+  - rewrite !graph_seteqb_iff. intros H1 H2 t. rewrite H1. apply H2.
+Qed.
+
+Lemma tied_variant_sound b cv : tied_variant b cv = true ->
+  obs_eqb (model_obs b) (ren_obs (snd cv) (model_obs (fst cv))) = true.
+Proof.
+  unfold tied_variant. destruct cv as [v ren]. cbn [fst snd]. intros H.
+  apply andb_true_iff in H as [H Ha]. apply andb_true_iff in H as [H Fv]. apply andb_true_iff in H as [H Fb].
+  apply andb_true_iff in H as [H W]. apply andb_true_iff in H as [H Ef]. apply andb_true_iff in H as [Hr Ed].
+  destruct ren; [|discriminate]. cbn [ren_obs].
+  apply ds_eqb_eq in Ed. apply form_eqb_eq in Ef.
+  assert (Wv : case_wf v = true) by (unfold case_wf in *; rewrite <- Ed; exact W).
+  pose proof (top_rows b W Fb) as P1. pose proof (top_rows v Wv Fv) as P2.
+  unfold model_obs. rewrite <- Ef, <- Ed. apply answer_perm.
+  rewrite P1. unfold spec_rows in *. rewrite <- Ed in P2. rewrite P2. now apply aeqb_sound.
+Qed.
+
+Lemma present_map_some {A} (f : A -> obs) l : present (map (fun x => Some (f x)) l) = map f l.
+Proof. induction l as [|x l IH]; [reflexivity|]. unfold present in *. cbn. now rewrite IH. Qed.
+Lemma present_app a b : present (a ++ b) = present a ++ present b.
+Proof. unfold present. apply flat_map_app. Qed.
+Lemma present_repeat x n : present (repeat (Some x) n) = repeat x n.
+Proof. induction n as [|n IH]; [reflexivity|]. unfold present in *. cbn. now rewrite IH. Qed.
+
+Lemma group_model_ok g : tied_group g = true ->
+  N.of_nat (length (group_model g)) = group_size g /\ group_ok (group_model g) = true.
+Proof.
+  unfold tied_group, group_model, group_size. destruct (g_kind g); intros H.
+  - split.
+    + cbn [length]. rewrite app_length, map_length, repeat_length. lia.
+    + unfold group_ok. cbn [present flat_map app]. rewrite present_app, present_map_some, present_repeat.
+      apply forallb_forall. intros y I. apply in_app_or in I as [I|I].
+      * apply in_map_iff in I as [cv [<- Icv]]. apply tied_variant_sound.
+        rewrite forallb_forall in H. now apply H.
+      * apply repeat_spec in I. subst. apply obs_eqb_refl.
+  - split; reflexivity.
+  - split; reflexivity.
+Qed.
+
+(* THE TIE on its region: the checker accepts the model's observation *)
+Theorem variants_tie c : tied15 c = true -> spec_ok15 c (model_obs15 c) = true.
+Proof.
+  intros H. apply spec_ok15_iff. unfold model_obs15, tied15 in *. rewrite forallb_forall in H.
+  induction c as [|g c IH]; cbn [map]; constructor.
+  - apply group_model_ok. apply H. now left.
+  - apply IH. intros x I. apply H. now right.
+Qed.
+
+(* special case: groups without variants of their own (one algebra observed repeatedly) *)
 Definition no_own_algebra (c : vcase) : bool :=
   forallb (fun g => match g_vars g with [] => true | _ => false end) c.
-
-Lemma model_same_algebra c : no_own_algebra c = true -> spec_ok15 c (model_obs15 c) = true.
+Lemma no_own_tied c : no_own_algebra c = true -> tied15 c = true.
 Proof.
-  intros H. apply spec_ok15_iff. split.
-  - unfold model_obs15. apply map_length.
-  - intros l I. unfold model_obs15 in I. apply in_map_iff in I as [g [<- Ig]].
-    unfold no_own_algebra in H. rewrite forallb_forall in H. specialize (H g Ig).
-    unfold group_model. destruct (g_kind g); try reflexivity.
-    destruct (g_vars g); [|discriminate]. cbn.
-    apply forallb_forall. intros y Iy. apply repeat_spec in Iy. subst. apply obs_eqb_refl.
+  unfold no_own_algebra, tied15. rewrite !forallb_forall. intros H g I. specialize (H g I).
+  unfold tied_group. destruct (g_kind g); try reflexivity. destruct (g_vars g); [reflexivity|discriminate].
 Qed.
+
+(* ---- witness of F-C15-1: { ?x :p ?y . { ?x :p ?z } VALUES ?w { 11 11 } } against the same
+   group with the VALUES block first.  The algebra gives two rows for both; rdflib's
+   evaluator (and the model) one row for the first, two for the second: only the right
+   operand of a non-lazy join is de-duplicated (F-C04-3) ---- *)
+Definition w15_ds : dataset := {| ds_default := [(1, 4, 2)]; ds_named := [] |}.
+Definition w15_base : case :=
+  {| c_ds := w15_ds; c_form := FSelect;
+     c_alg := Project (Join false (Join true (BGP [(Vr 1, Tm 4, Vr 2)]) (BGP [(Vr 1, Tm 4, Vr 3)]))
+                                  (Values [[(4, 11)]; [(4, 11)]])) [2; 1; 4; 3] |}.
+Definition w15_var : case :=
+  {| c_ds := w15_ds; c_form := FSelect;
+     c_alg := Project (Join false (Join true (Values [[(4, 11)]; [(4, 11)]]) (BGP [(Vr 1, Tm 4, Vr 2)]))
+                                  (BGP [(Vr 1, Tm 4, Vr 3)])) [2; 1; 3; 4] |}.
+Definition w15 : vcase := [ {| g_base := w15_base; g_vars := [(w15_var, [])]; g_same := 0; g_kind := GNormal |} ].
+
+Lemma w15_refuted :
+  spec_ok15 w15 (model_obs15 w15) = false /\ kf15 w15 = 1
+  /\ msol_eqb (spec_rows w15_base) (spec_rows w15_var) = true
+  /\ length (spec_rows w15_base) = 2%nat
+  /\ model_obs w15_base = RSel [[(1, 1); (2, 2); (3, 2); (4, 11)]].
+Proof. vm_compute. repeat split; reflexivity. Qed.
